@@ -40,8 +40,10 @@ Must(class) ==
 FeedOutcomes == {"accepted", "rejected", "panicked"}
 
 (* judgement of one fed input; kept: the previously loaded state answers as before *)
-FeedReasons(class, outcome, kept) ==
+(* alive: the background goroutine the input went through still reacts to the next valid change *)
+FeedReasons(class, outcome, kept, alive) ==
   (IF outcome = "panicked" THEN {"panic-escaped-reload-callable"} ELSE {})
+  \cup (IF ~alive THEN {"background-watcher-stopped"} ELSE {})
   \cup (IF outcome = "rejected" /\ ~kept THEN {"state-lost-on-rejected-input"} ELSE {})
   \cup (IF outcome = "rejected" /\ Must(class) = "accept" THEN {"valid-input-rejected"} ELSE {})
   \cup (IF outcome = "accepted" /\ Must(class) = "reject" THEN {"unusable-input-accepted"} ELSE {})
@@ -111,6 +113,6 @@ Spec == Init /\ [][Next]_vars
 InvAlive == alive
 InvRejectKeeps == (last.kind = "feed" /\ last.outcome = "rejected") => last.after = last.before
 InvJudged == last.kind = "feed" =>
-               FeedReasons(last.class, last.outcome, last.after = last.before \/ last.outcome = "accepted") = {}
+               FeedReasons(last.class, last.outcome, last.after = last.before \/ last.outcome = "accepted", alive) = {}
 InvTable == \A c \in Classes : Must(c) \in {"accept", "reject", "open"}
 =============================================================================
